@@ -82,6 +82,8 @@ static CanRec gen_can_frame(Rng &r, bool fd) {
     }
     auto d = r.chance(0.12) ? structured_bytes(r, c.len) : rnd_bytes(r, c.len, r.chance(0.7) ? 1 : -1);
     memcpy(c.data, d.data(), c.len);
+    // the bytes of the frame structure that carry nothing (__pad, __res0, __res1): a sender over a virtual CAN interface may leave anything there
+    if (r.chance(0.08)) c.junk = (uint16_t)(r.coin() ? (uint16_t[]){0x0001, 0x0002, 0x0003, 0x0004, 0x00ff, 0x0100, 0xffff}[r.below(7)] : r.below(65536));
     return c;
 }
 static std::string can_line(uint64_t t, const CanRec &c) {
@@ -93,10 +95,12 @@ static std::string can_line(uint64_t t, const CanRec &c) {
                          sim::hexstr(c.data, c.len).c_str());
     if (c.fd) l += strf(" ff=0x%02x", c.flags);
     if (c.dlc8) l += strf(" dlc8=%u", c.dlc8);
+    if (c.junk) l += strf(" junk=0x%x", c.junk);
     return l;
 }
 static uint64_t gap(Rng &r, uint64_t scale, bool very_long = false) {
     if (very_long && r.chance(0.006)) return r.range(900, 3500) * 1000000ULL;  // the bus is silent for seconds
+    if (very_long && r.chance(0.0015)) return (r.chance(0.8) ? r.range(61, 400) : r.range(2150, 4400)) * 1000000000ULL;  // ... for minutes, for more than 2^31 us
     if (r.chance(0.03)) return r.range(20, 200) * scale;  // an occasional long pause of the source
     switch (r.below(10)) {
     case 0: case 1: case 2: return 0;
